@@ -234,7 +234,15 @@ func bodyDial(r *sim.Run) {
 	}
 	installGlobals(r, z, w.wkTr)
 	verifrt.DialHook = func(d *net.Dialer, ctx context.Context, network, addr string) (net.Conn, error) {
-		return w.n.dial("fed", d, ctx, network, addr)
+		// the client dials through its federation dialer; a client limited to
+		// allowed / denied networks fetches well-known documents through a
+		// second dialer of its own instead of the process-wide transport
+		tag := "fed"
+		if w.client != nil && d != w.client.VerifFederationDialer() && (w.cache == nil || d != w.cache.VerifDialer()) {
+			tag = "wk"
+			r.Probe("wellknown_fetched_through_the_clients_own_dialer")
+		}
+		return w.n.dial(tag, d, ctx, network, addr)
 	}
 	r.Defer(func() { verifrt.DialHook = nil })
 
